@@ -13,7 +13,8 @@ residues, virtual sites, explicit or atom-type masses) x an option combination o
 -box / -dens / -c (complete, truncated) / -mc (alone, with -box, with -dens) / -res / -grid / -start x a
 seed; plus two streams about placement outcomes: chains whose supplied and rebuilt residues alternate, with
 a schedule of failing placement steps (rewinds / retries; `RandomWalk.update_positions` is interposed to return
-False at the scheduled calls), and one system with > 5000 supplied one-bead molecules and a chain whose first
+False at the scheduled calls; some schedules have more consecutive failed attempts of a molecule than a small
+`-mi` (BuildSystem maxiter 0/1/2) allows, so `_handle_random_walk` gives up once), and one system with > 5000 supplied one-bead molecules and a chain whose first
 attempt fails.  A run that crashes on an input the model accepts is reported with that input.  The written .gro is
 parsed (fixed columns, as vermouth writes it) and compared with
   * the Lean MODEL of the writing loops (`Coords.listing`: correspondence stream `listing`) and of the box
@@ -147,6 +148,37 @@ def gen_interleaved(rng):
     if rng.random() < 0.3:
         opts["box"] = [length, length + 1.0, length]
         opts["mode"] = "both"
+    if rng.random() < 0.35:
+        giveup(rng, opts)
+    return dict(types=types, molecules=molecules, opts=opts, seed=rng.randint(0, 10 ** 6))
+
+
+def giveup(rng, opts):
+    """a small maximum number of attempts per molecule (-mi 0/1/2) and at least that many + 1 CONSECUTIVE
+    failed attempts: `_handle_random_walk` gives up once; gen_coords must still place the molecule"""
+    opts["maxiter"] = rng.choice([0, 1, 2])
+    # every attempt of a molecule with >= 2 residues to build makes one call and fails at it
+    opts["fail_calls"] = list(range(1, opts["maxiter"] + 2 + rng.randint(0, 2)))
+
+
+def gen_giveup(rng):
+    """fully built chains (no input structure) whose first attempts fail more often than -mi allows"""
+    nres = rng.randint(2, 6)
+    kinds = [gen_residue(rng, "RA"), gen_residue(rng, "QA")]
+    residues = []
+    for _ in range(nres):
+        src = rng.choice(kinds)
+        residues.append(dict(resname=src["resname"], atoms=[list(a) for a in src["atoms"]]))
+    types = [dict(name="A", residues=residues, resid0=1)]
+    molecules = [["A", rng.choice([1, 2, 3])]]
+    if rng.random() < 0.5:
+        types.append(gen_type(rng, "B"))
+        molecules.insert(rng.randint(0, 1), ["B", rng.choice([1, 2])])
+    length = float(rng.choice([5, 6, 7.5]))
+    opts = dict(mode="box", box=[length] * 3)
+    if rng.random() < 0.4:
+        opts = dict(mode="dens", density=float(rng.choice([10, 20])))
+    giveup(rng, opts)
     return dict(types=types, molecules=molecules, opts=opts, seed=rng.randint(0, 10 ** 6))
 
 
@@ -311,6 +343,8 @@ def real_run(case, timeout):
         kwargs["start"] = list(opts["start"])
     if "grid_spacing" in opts:
         kwargs["grid_spacing"] = opts["grid_spacing"]
+    if "maxiter" in opts:
+        kwargs["maxiter"] = opts["maxiter"]
     from polyply.src import random_walk
     orig_update = random_walk.RandomWalk.update_positions
     fail_calls = set(opts.get("fail_calls", []))
@@ -386,7 +420,7 @@ def judge(ctx, case, res, answers, box_ans):
     natoms = sum(len(type_atoms(t)) for t in expanded(case))
     key = json.dumps(case, sort_keys=True) if natoms > 1 else None
     if "fail_calls" in case["opts"]:
-        ctx.tally(stream="crowded" if case["opts"].get("slab") else "interleaved")
+        ctx.tally(stream="crowded" if case["opts"].get("slab") else "giveup" if "maxiter" in case["opts"] else "interleaved")
     hist = dict(mode=case["opts"]["mode"], status=status, types=len(case["types"]), lines=len(case["molecules"]),
                 grid="grid" in case["opts"], start="start" in case["opts"],
                 input=case["opts"].get("input_kind", "-"), res="build_res" in case["opts"])
@@ -495,7 +529,8 @@ def run(ctx):
     cases = corpus_cases()
     cases += [gen_crowded(ctx.rng) for _ in range(ctx.budget(1, 2))]
     cases += [gen_interleaved(ctx.rng) for _ in range(ctx.budget(24, 300))]
-    cases += [gen_case(ctx.rng, ctx.thorough) for _ in range(ctx.budget(110, 2200))]
+    cases += [gen_giveup(ctx.rng) for _ in range(ctx.budget(10, 120))]
+    cases += [gen_case(ctx.rng, ctx.thorough) for _ in range(ctx.budget(100, 2100))]
     run_cases(ctx, cases)
     if not any(k == "status=ok" for k in ctx.dist):
         ctx.tie_broken("correspondence", "e2e:no-run-finished", "no gen_coords run finished")
